@@ -476,7 +476,7 @@ pub fn closure_body(ctx: &Arc<RunCtx>, op: OpId, p: &mut Payload) -> u64 {
             Step::Touch => span.payload().touch(ctx, op),
             Step::Nest(c) => nested_blocking(ctx, c),
             Step::Hold(h) => { let _b = ctx.blocked(op, PH_HOLD); ctx.progress(); ctx.holds[h].wait(); }
-            Step::Panic => { ctx.expected_panic_seen.fetch_add(1, ORD); panic!("vh-expected-panic op {}", op) }
+            Step::Panic => { ctx.expected_panic_seen.fetch_add(1, ORD); crate::run::note_dying_pool_thread(); panic!("vh-expected-panic op {}", op) }
             Step::DropMortal => {
                 let owner = ctx.mortal_job_owner.lock().unwrap().take();
                 if let Some(owner) = owner { drop_owner(ctx, op, owner); }
@@ -500,7 +500,7 @@ pub fn future_body<'a>(ctx: Arc<RunCtx>, op: OpId, p: &'a mut Payload) -> BoxFut
                 Step::Yield => { ctx.recs[op].pendings.fetch_add(1, ORD); YieldOnce { done: false }.await }
                 Step::Gate(g) => GateFut { gate: Arc::clone(&ctx.gates[g]), ctx: Arc::clone(&ctx), op, registered: false }.await,
                 Step::Nest(c) => nested_async(Arc::clone(&ctx), c).await,
-                Step::Panic => { ctx.expected_panic_seen.fetch_add(1, ORD); panic!("vh-expected-panic op {}", op) }
+                Step::Panic => { ctx.expected_panic_seen.fetch_add(1, ORD); crate::run::note_dying_pool_thread(); panic!("vh-expected-panic op {}", op) }
                 Step::WakeOnly => WakeNow { stash: None }.await,
                 Step::StashWaker => WakeNow { stash: Some(Arc::clone(&ctx)) }.await,
                 Step::FireStashed => { let ws: Vec<Waker> = ctx.stashed_wakers.lock().unwrap().clone(); for w in ws { w.wake_by_ref(); } }
